@@ -160,31 +160,28 @@ func (se *SignalEnum) verifyValueIndex(index int) error {
 }
 
 func (se *SignalEnum) modifyValueIndex(value *SignalEnumValue, newIndex int) {
-	gtMaxIndex := false
-	if maxSize > se.maxIndex {
-		gtMaxIndex = true
+	// the max index after the update; the other values keep their index
+	newMaxIndex := 0
+	if newIndex > newMaxIndex {
+		newMaxIndex = newIndex
 	}
-
-	updateMaxIdx := false
-	if value.index == se.maxIndex && newIndex < se.maxIndex {
-		updateMaxIdx = true
-	}
-
-	if gtMaxIndex || updateMaxIdx {
-		amount := calcSizeFromValue(newIndex) - se.GetSize()
-
-		for _, tmpSig := range se.refs.entries() {
-			if err := tmpSig.modifySize(amount); err != nil {
-				panic(err)
-			}
+	for _, tmpVal := range se.values.entries() {
+		if tmpVal.entityID == value.entityID {
+			continue
 		}
 
-		if gtMaxIndex {
-			se.maxIndex = newIndex
-		} else {
-			se.setMaxIndex()
+		if tmpVal.index > newMaxIndex {
+			newMaxIndex = tmpVal.index
 		}
 	}
+
+	// growing has been checked by verifyValueIndex and shrinking cannot fail,
+	// because the size of an enum is always positive
+	if err := se.modifySize(se.sizeFromMaxIndex(newMaxIndex) - se.GetSize()); err != nil {
+		panic(err)
+	}
+
+	se.maxIndex = newMaxIndex
 
 	oldIndex := value.index
 	se.valueIndexes.modifyKey(oldIndex, newIndex, value.entityID)
